@@ -8,7 +8,7 @@ CI = r"^impl CodeGenerator for CompInfo$"
 UNIT = {
     "name": "derives",
     "env": [os.path.join(ENV, "derives_env.rs")],
-    "declared_trusted": {r"external_body": 23},
+    "declared_trusted": {r"external_body": 27},
     "items": [
         {"kind": "fn", "file": "bindgen/codegen/mod.rs", "name": "derives_of_item", "ret": "r",
          "ensures": [
